@@ -110,3 +110,17 @@ package trie
 //@   ensures[C10] @embed result1 == nil && n != nil && !typeis(n, "trie.hashNode") && rlpenclen(n) < 32 && !force ==> result0 == n
 //@   ensures[C10] @hashed result1 == nil && n != nil && !typeis(n, "trie.hashNode") && (rlpenclen(n) >= 32 || force) ==> typeis(result0, "trie.hashNode")
 //@   ensures[C10] @passthrough (n == nil || typeis(n, "trie.hashNode")) ==> result0 == n && result1 == nil
+
+// ---- a branch node's own value is never hashed (C10) ----------------------------------------------
+// hashChildren replaces the 16 child slots of a branch node by their hashes (or embedded
+// encodings) but carries the value slot (index 16) over unchanged: the value of a key that is a
+// prefix of other keys is stored in the branch itself, whatever its length (Yellow Paper
+// appendix D: c(J, i) of a branch is (n(...), ..., n(...), v)).
+//@ func hasher.hash
+//@   requires[C10v] h != nil
+//@ func hasher.hashChildren
+//@   requires h != nil && original != nil
+//@   requires typeis(original, "*trie.shortNode") ==> unbox(original, "*trie.shortNode") != nil && hexkey(unbox(original, "*trie.shortNode").Key)
+//@   let n = unbox(original, "*trie.fullNode")
+//@   ensures[C10] @valuekept typeis(original, "*trie.fullNode") && result2 == nil && old(n.Children[16]) != nil ==> typeis(result0, "*trie.fullNode") && unbox(result0, "*trie.fullNode").Children[16] == old(n.Children[16]) && unbox(result1, "*trie.fullNode").Children[16] == old(n.Children[16])
+//@   loop 1 invariant[C10] collapsed != nil && cached != nil && collapsed != cached && collapsed.Children[16] == old(n.Children[16]) && fresh(collapsed) && fresh(cached) && n.Children[16] == old(n.Children[16])
